@@ -297,6 +297,22 @@ func (svc *service) sendRegistered(ackq *sessions.Ackqueue, msg message.Message,
 	return nil
 }
 
+// abort closes the connection and both ring buffers, which makes every
+// goroutine blocked on them return; unlike stop() it does not wait for anything.
+func (svc *service) abort() {
+	if svc.conn != nil {
+		svc.conn.Close()
+	}
+
+	if svc.in != nil {
+		svc.in.Close()
+	}
+
+	if svc.out != nil {
+		svc.out.Close()
+	}
+}
+
 func (svc *service) publish(msg *message.PublishMessage, onComplete OnCompleteFunc) error {
 	switch msg.QoS() {
 	case message.QosAtLeastOnce:
